@@ -208,6 +208,31 @@ def _jump_zero_test(g, is_y, k, n, is_x=None) -> bool:
     return False
 
 
+def check_spline_scheme(ctx):
+    """CubicSplineRFA is linear in the averages only if one interpolation scheme is used for every series: a choice between two linear schemes
+    made by looking at the data is not linear (nor invariant under y -> a*y+b when the test is not)"""
+    ctx.rule('C07.5', 'CubicSplineRFA: the sampling function is one library interpolant of (self.x, self.y) whose options are literal (no option, and no '
+                      'choice between interpolants, depends on the data)')
+    st = strategy(ctx.prog, 'CubicSplineRFA')
+    res = st.result
+    fns = [t.args[0] for t in walk_vals(res) if isinstance(t, Term) and t.head == 'apply' and len(t.args) == 2]
+    fns += [t.a for t in walk_vals(res) if False]
+    if not fns:
+        raise AnalysisError('C07.5: CubicSplineRFA.rfa applies no sampling function')
+    f = fns[0]
+    inst = 'CubicSplineRFA: interpolation scheme fixed independently of the data'
+    if not (isinstance(f, Term) and f.head.startswith('lib:')):
+        return ctx.fail('C07.5', inst, f"the sampling function is {str(f)[:200]} (a data-dependent selection, or not a library interpolant)", st.rfa.loc(), st.rfa.qualname,
+                        'scheme')
+    data_opts = []
+    for k_, v_ in list(f.kwargs) + [(str(i_), a_) for i_, a_ in enumerate(f.args)]:
+        if k_ in ('x', 'y', '0', '1'):
+            continue
+        if not isinstance(v_, Const) and not (isinstance(v_, Num) and v_.is_const()):
+            data_opts.append(f"{k_}={str(v_)[:100]}")
+    ctx.check(not data_opts, 'C07.5', inst, f"{f.head[4:]} options computed at run time: {data_opts}", st.rfa.loc(), st.rfa.qualname, 'scheme')
+
+
 def check_grid_equivariance(ctx):
     """the grid the strategies hand to the fits is extend_linspace(oversample_linspace(x)): both helpers are affine-equivariant
     in their array argument (C17 decides their forms; here: the mirror points have coefficient sum 1)"""
@@ -256,5 +281,6 @@ def run(ctx):
         check_constants(ctx, clsname)
     check_adaptive_unitfree(ctx)
     check_grid_equivariance(ctx)
+    check_spline_scheme(ctx)
     ctx.notes.append('NOT DECIDED: non-negativity of the weights (an inequality); exact float equality of the two sides of the metamorphic relation.')
     ctx.trust('Abs(c*e)=|c|*Abs(e) for rational c', 'array helpers uninterpreted here (C17)')
